@@ -111,6 +111,9 @@ def stmts(n, ctx):
         for b in blocks(body_n, lsub):
             out.append(('repeat', ('all', 'l%d' % depth, None), b))
             out.append(('repeat', ('forever',), b))
+            if ext == 2:
+                # iteration over the group names: its code is emitted by a different generator path
+                out.append(('repeat', ('groups', 'g%d' % depth, None), b))
         if not in_routine:
             rctx = (False, True, callables, None, depth + 1, ext)
             for b in blocks(body_n, rctx):
